@@ -102,9 +102,11 @@ def tlc_must_finish(res, what, allow_violation=False):
 
 # ---------------------------------------------------------------- harness
 
-def run_harness(binpath, mode, cases, workdir, env=None, deadline_ms=5000, shards=None, timeout=3600):
+def run_harness(binpath, mode, cases, workdir, env=None, deadline_ms=5000, shards=None, timeout=3600, max_dead=12):
     """run `cases` (list of JSON-able objects) through `harness stream <mode>`, sharded over processes.
-    Returns a list aligned with cases: the result object, or {"hang": True} / {"crash": "..."}."""
+    Returns a list aligned with cases: the result object, or {"hang": True} / {"crash": "..."}.
+    A shard that has already seen max_dead hangs/crashes stops: its remaining cases are {"skipped": True} (the
+    violation is established; hanging cases cost a full deadline each)."""
     shards = shards or min(NCPU, max(1, len(cases) // 200))
     n = len(cases)
     results = [None] * n
@@ -151,7 +153,7 @@ def run_harness(binpath, mode, cases, workdir, env=None, deadline_ms=5000, shard
             done = 0
             if os.path.exists(outp):
                 with open(outp) as f:
-                    lines = f.read().splitlines()
+                    lines = [l for l in f.read().split("\n") if l]
                 for l in lines:
                     try:
                         o = json.loads(l)
@@ -182,8 +184,11 @@ def run_harness(binpath, mode, cases, workdir, env=None, deadline_ms=5000, shard
                         f.write(json.dumps({"idx": done, "res": results[s["lo"] + done]}) + "\n")
                     done += 1
             s["restarts"] += 1
-            if s["restarts"] > 2000:
-                raise Broken("harness keeps dying (mode %s)" % mode)
+            if s["restarts"] >= max_dead:
+                for k in range(s["lo"] + done, s["hi"]):
+                    results[k] = {"skipped": True}
+                pending.remove(s)
+                continue
             if done >= s["hi"] - s["lo"]:
                 pending.remove(s)
                 continue
